@@ -516,7 +516,7 @@ pub fn eval(op: &str, a: &[&str]) -> Option<String> {
         // `levelnb`: the same request against rpm-rs built WITHOUT bzip2 support (only emitted by the nobz variant)
         "level" | "levelnb" if a.len() == 2 => level(a[0], a[1].parse().ok()?),
         "leveld" | "leveldnb" if a.len() == 1 => leveld(a[0]),
-        "wfile" | "wfile6" if a.len() == 7 => wfile(a),
+        "wfile17" | "wfile6" if a.len() == 7 => wfile(a),
         "tsset" if a.len() == 4 => tsset(a[0], a[1], a[2].parse().ok()?, a[3].parse().ok()?),
         "capsset" if a.len() == 1 => Some(capsset(text(a[0])?)),
         "meta" if a.len() == 1 => Some(meta(text(a[0])?)),
@@ -654,7 +654,7 @@ pub fn gen(ctx: &mut Ctx) {
     if ctx.variant == "nobz" {
         return gen_nobz(ctx);
     }
-    gen_wfile(ctx, "wfile");
+    gen_wfile(ctx, "wfile17");
     if ctx.shard.0 == 0 {
         for ty in ["default", "none", "gzip", "zstd", "xz", "bzip2"] {
             ctx.req(&format!("leveld {}", ty));
